@@ -9,6 +9,9 @@ package command
 // (effect obligations over the SSA: the Options literal passed to bolt.Open has ReadOnly stored as the constant true)
 
 //@ F [cli.check.readonly] props C17 C19 : openoptions command.checkFunc : ReadOnly == true
+// `bbolt check` must look at the free list exactly as it is stored: the default (array) back end keeps duplicate
+// ids, which Tx.Check reports as "freed twice"; the hashmap back end merges them away while loading
+//@ F [cli.check.freelisttype] props C19 : openoptions command.checkFunc : FreelistType == unset
 //@ F [cli.buckets.readonly] props C17 : openoptions command.bucketsFunc : ReadOnly == true
 //@ F [cli.get.readonly] props C17 : openoptions command.getFunc : ReadOnly == true
 //@ F [cli.info.readonly] props C17 : openoptions command.infoFunc : ReadOnly == true
@@ -27,10 +30,10 @@ package command
 //@ func checkFunc$1
 //@   returns (err)
 //@   props C19
-//@   ensures [corrupt] recvtotal > old(recvtotal) ==> err == guts_cli.ErrCorrupt
+//@   ensures [corrupt] recvtotal > old(recvtotal) && recvtotal - old(recvtotal) < 9223372036854775807 ==> err == guts_cli.ErrCorrupt     -- (the int counter would wrap after 2^63 reported problems)
 //@   ensures [clean] recvtotal == old(recvtotal) ==> err == nil
 //@   callback ensures true
-//@   loop 0 invariant recvtotal >= old(recvtotal) && count >= 0 && (count > 0 <==> recvtotal > old(recvtotal))
+//@   loop 0 invariant recvtotal >= old(recvtotal) && (recvtotal - old(recvtotal) < 9223372036854775807 ==> count == recvtotal - old(recvtotal))
 
 // ---------------------------------------------------------------- C15: compaction command
 
